@@ -132,6 +132,7 @@ fn main() {
     let tr = run.ev.coverage.get("transitions").cloned().unwrap_or(json!(0));
     run.ev.set("traces_validated_against_impl", tr);
     run.ev.set("exhaustive", json!(closed));
+    run.ev.set("real_rand_conformance", json!(std::env::var("VERIF_MCREAL_SUMMARY").unwrap_or_else(|_| "not run (binary invoked without run.sh)".into())));
     run.ev.set("samples", json!([
         {"structure": "BloomFilter", "config": "m=3,k=2,f=[0,1]", "history": ["insert(h1=2,h2=1)", "insert(h1=0,h2=0)", "clear()", "insert(h1=1,h2=2)"], "checked": "marked element still reported after every later insert; both operands' elements after union"},
         {"structure": "CuckooFilter", "config": "b=2,nb=2,l=2,alt=[1,0,1],kicks<=2", "history": ["insert(e0)", "insert(e1)", "insert(e4)", "insert(e5)", "insert(e2) rng=[0,1,0]", "delete(e1)"], "checked": "every element with inserts > deletes is reported present"}
